@@ -24,7 +24,7 @@ RULE = (
     "non-trivial = state with at least 3 linked nodes (a route of >=2 hops exists); distinct by history"
 )
 BOUNDS = {
-    "quick": "trees n<=7 (classes) + all labelled trees n<=5; graphs: 4 nodes all edges, 5 nodes <=6 edges; registry histories depth<=3",
+    "quick": "trees n<=6 (classes) + all labelled trees n<=5; graphs: 4 nodes all edges, 5 nodes <=6 edges, 6 nodes <=6 edges; registry histories depth<=3 over 10 registration operations",
     "thorough": "trees n<=8 (classes) + all labelled trees n<=6; graphs: 5 nodes <=8 edges, 6 nodes <=7 edges; registry histories depth<=4",
 }
 ASSUMPTIONS = [
@@ -257,7 +257,7 @@ def canon_state(nodes):
 def units(tier, seed):
     u = []
     cfg = {"eop": "pass"}
-    nmax_class = 7 if tier == "quick" else 8
+    nmax_class = 6 if tier == "quick" else 8
     nmax_all = 5 if tier == "quick" else 6
     for n in range(2, nmax_class + 1):
         for ti, edges in enumerate(tree_classes(n)):
@@ -273,7 +273,7 @@ def units(tier, seed):
         for i in range(0, len(trees), chunk):
             u.append((cfg, dict(part="trees", n=n, trees=trees[i : i + chunk])))
     # general graphs
-    graph_bounds = [(4, 6), (5, 6)] if tier == "quick" else [(4, 6), (5, 8), (6, 7)]
+    graph_bounds = [(4, 6), (5, 6), (6, 6)] if tier == "quick" else [(4, 6), (5, 8), (6, 7)]
     for n, m in graph_bounds:
         # second-level prefixes (first edge fixed to 0+1 by renaming symmetry)
         all_e = [(a, b) for a in range(n) for b in range(n) if a != b]
@@ -284,7 +284,9 @@ def units(tier, seed):
     # registries
     depth = 3 if tier == "quick" else 4
     for first in REG_OPS:
-        for second in [None] + [o for o in REG_OPS if o != first]:
+        if not _enabled(first, []):
+            continue
+        for second in [None] + [o for o in REG_OPS if _enabled(o, [first])]:
             u.append((cfg, dict(part="registry", prefix=[first] + ([second] if second else []), depth=depth)))
     return u
 
@@ -378,7 +380,13 @@ def run_graph(n, m, prefix, t):
 # ---------------------------------------------------------------------------
 # registries of the real frames
 
-REG_OPS = ["sta1", "sta2", "orb0", "orbQ", "orbT", "moon", "sun"]
+REG_OPS = ["sta1", "sta2", "staE", "orb0", "orbQ", "orbT", "moon", "sun", "orbM", "orbN"]
+# operations that need an earlier registration (the frame their reference orbit is expressed in)
+REG_NEEDS = {"orbM": "moon", "orbN": "orb0"}
+
+
+def _enabled(op, hist):
+    return op not in hist and (op not in REG_NEEDS or REG_NEEDS[op] in hist)
 BUILTIN = ["EME2000", "MOD", "TOD", "TEME", "PEF", "ITRF", "TIRF", "CIRF", "GCRF", "G50"]
 _REG = {}
 
@@ -427,12 +435,29 @@ def _apply(op):
         return create_station("Sta1", (43.428889, 1.497778, 178.0)).name
     if op == "sta2":
         return create_station("Sta2", (-35.4, 148.98, 690.0)).name
+    if op == "staE":
+        return create_station("StaE", (10.0, -60.0, 50.0), equatorial=True).name
+    if op == "orbM":  # orbit expressed in the (already registered) Moon-centred frame
+        from beyond.orbits import Orbit
+
+        o = Orbit([2.0e6, 1.0e5, -3.0e5, -50.0, 1500.0, 300.0], _REG["date"], "cartesian", "Moon", "Kepler")
+        _REG["ref_of"]["OrbM"] = o
+        return orbit2frame("OrbM", o, None).name
+    if op == "orbN":  # orbit expressed in the (already registered) orbit-attached frame Orb0
+        from beyond.orbits import Orbit
+
+        o = Orbit([150.0, -80.0, 40.0, 0.1, 0.2, -0.05], _REG["date"], "cartesian", "Orb0", "Kepler")
+        _REG["ref_of"]["OrbN"] = o
+        return orbit2frame("OrbN", o, None).name
     if op == "orb0":
-        return orbit2frame("Orb0", _REG["ref_orb"](), None).name
+        _REG["ref_of"]["Orb0"] = _REG["ref_orb"]()
+        return orbit2frame("Orb0", _REG["ref_of"]["Orb0"], None).name
     if op == "orbQ":
-        return orbit2frame("OrbQ", _REG["ref_orb"](), "QSW").name
+        _REG["ref_of"]["OrbQ"] = _REG["ref_orb"]()
+        return orbit2frame("OrbQ", _REG["ref_of"]["OrbQ"], "QSW").name
     if op == "orbT":
-        return orbit2frame("OrbT", _REG["ref_orb"](), "TNW").name
+        _REG["ref_of"]["OrbT"] = _REG["ref_orb"]()
+        return orbit2frame("OrbT", _REG["ref_of"]["OrbT"], "TNW").name
     if op == "moon":
         return solarsystem.get_frame("Moon").name
     if op == "sun":
@@ -446,6 +471,7 @@ def check_registry(hist, t):
 
     R = _reg_world()
     world.restore(R["snap"])
+    R["ref_of"] = {}
     case = dict(kind="registry", history=list(hist))
     new = []
     for op in hist:
@@ -485,6 +511,25 @@ def check_registry(hist, t):
             except Exception as e:
                 t.fail("registry/unreachable/" + _kind(a) + "-" + _kind(b), "every pair of connected frames is convertible",
                        case, "conversion", repr(e), f"{b}->{a}")
+    # (3) the link of a new frame is attached to the right node: the object a frame is attached to sits at its origin
+    from beyond.env import solarsystem
+
+    for a in new:
+        try:
+            if a in R["ref_of"]:
+                o = R["ref_of"][a]
+            elif a in ("Moon", "Sun"):
+                o = solarsystem.get_body(a).propagate(R["date"])
+            else:
+                continue
+            z = np.array(o.copy(form="cartesian").copy(frame=a), dtype=float)
+            t.trans()
+            scale = max(1.0, float(np.linalg.norm(np.array(o.copy(form="cartesian"), dtype=float)[:3])))
+            if not t.margin("registry origin offset / |r|", float(np.linalg.norm(z[:3])) / scale, 1e-9):
+                t.fail("registry/origin/" + _kind(a), "a frame attached to an orbit/body is linked where that object is (it sits at the frame's origin)",
+                       case, 0.0, z.tolist(), f"{a}: reference object at {z[:3]} in its own frame after {hist}")
+        except Exception as e:
+            t.fail("registry/origin-raises/" + _kind(a), "every pair of connected frames is convertible", case, "conversion", repr(e), a)
     t.state(("R", tuple(hist)))
     t.ev(("R", tuple(hist)))
     t.outcome(("registry", len(new)))
@@ -494,7 +539,7 @@ def check_registry(hist, t):
 
 
 def _kind(name):
-    return {"Sta1": "station", "Sta2": "station", "Orb0": "orbframe", "OrbQ": "lof", "OrbT": "lof"}.get(name, "body" if name in ("Moon", "Sun") else "builtin")
+    return {"Sta1": "station", "Sta2": "station", "StaE": "eq-station", "Orb0": "orbframe", "OrbM": "orbframe-on-body", "OrbN": "orbframe-nested", "OrbQ": "lof", "OrbT": "lof"}.get(name, "body" if name in ("Moon", "Sun") else "builtin")
 
 
 def run_registry(prefix, depth, t):
@@ -503,7 +548,7 @@ def run_registry(prefix, depth, t):
         if len(hist) >= depth:
             return
         for op in REG_OPS:
-            if op not in hist:
+            if _enabled(op, hist):
                 rec(hist + [op])
 
     if len(prefix) == 1:
